@@ -83,12 +83,34 @@ Set(e) ==
                         <<ObjSet(Norm(e.obs)) \ ObjSet(Proj(c)), ObjSet(Proj(c)) \ ObjSet(Norm(e.obs)), EdgeSet(Norm(e.obs)) \ EdgeSet(Proj(c)), EdgeSet(Proj(c)) \ EdgeSet(Norm(e.obs)), e.text, e.nullImported, e.importedTwice, e.erefImported>>)
                  /\ Chk(e.noTwin = 1 \/ (e.twinErr = 0 /\ e.twinSame = 1), "C14", "file-set-and-its-inlined-twin-compile-differently", <<e.twinErr, e.text, e.twinText, e.nullImported, e.importedTwice, e.erefImported>>)
 
+\* ---- icons of imported files (the "rebasing of relative ... icons" clause of C14).  An icon written in a file that is
+\* reached through the import paths p1, ..., pk (each as written in the importing file, split at "/") is a URL or an absolute
+\* path and stays what it is, or a relative path and is read relative to the imported file's directory:
+\* dir(p1)/.../dir(pk)/icon, cleaned of "." and of "x/.." pairs.
+RECURSIVE CleanFrom(_, _, _)
+CleanFrom(toks, n, acc) ==
+  IF n > Len(toks) THEN acc
+  ELSE LET t == toks[n] IN
+       CleanFrom(toks, n + 1, IF t = "." \/ t = "" THEN acc
+                              ELSE IF t = ".." /\ Len(acc) > 0 /\ acc[Len(acc)] # ".." THEN SubSeq(acc, 1, Len(acc) - 1)
+                              ELSE Append(acc, t))
+Clean(toks) == CleanFrom(toks, 1, <<>>)
+RECURSIVE Dirs(_, _)
+Dirs(steps, n) == IF n > Len(steps) THEN <<>> ELSE SubSeq(steps[n], 1, Len(steps[n]) - 1) \o Dirs(steps, n + 1)
+Icons(e) ==
+  /\ Chk(e.err = 0, "C14", "file-set-with-icons-rejected", e.msg)
+  /\ e.err = 0 => \A k \in 1..Len(e.objs) : LET o == e.objs[k] IN
+       IF o.kind \in {"url", "abs"} \/ o.steps = <<>>        \* (the importing file's own icons are nobody's business)
+       THEN Chk(o.got = o.val, "C14", IF o.steps = <<>> THEN "icon-of-the-importing-file-changed-by-an-import" ELSE "absolute-or-remote-icon-of-an-imported-file-changed", <<o.id, o.val, o.got, o.steps>>)
+       ELSE Chk(o.gotToks = Clean(Dirs(o.steps, 1) \o o.toks), "C14", "relative-icon-of-an-imported-file-not-rebased-to-its-directory", <<o.id, o.val, o.got, o.steps, Clean(Dirs(o.steps, 1) \o o.toks)>>)
+
 TInit == l = 1 /\ tid = 0 /\ st = Empty /\ prog = <<>>
 TNext ==
   /\ l <= Len(Trace) /\ l' = l + 1 /\ UNCHANGED <<st, prog>>
   /\ LET e == Trace[l] IN
        CASE e.ev = "reset" -> tid' = e.tid
          [] e.ev = "set"  -> Set(e) /\ UNCHANGED tid
+         [] e.ev = "icons" -> Icons(e) /\ UNCHANGED tid
          [] OTHER -> Chk(FALSE, "MACHINERY", "unknown-event", e.ev) /\ UNCHANGED tid
 TSpec == TInit /\ [][TNext]_<<l, tid, st, prog>>
 Done == PrintT(<<"TRACE-END", TLCGet("stats").diameter, Len(Trace)>>)
